@@ -128,7 +128,7 @@ def handleMatch (ts : List String) : String :=
     let (s, ts) ← parseTree (ts.length + 1) ts
     if ts.isEmpty then pure (p, s) else none) with
   | some (p, s) =>
-    if !opLeaves p then "bad-request" else
+    if !(opLeaves p && binOp3 p) then "bad-request" else
     let r := findMatches p s
     " ".intercalate (["ok", toString r.length] ++ r.map encMatch)
   | none => "bad-request"
